@@ -12,11 +12,16 @@ such prefix, or about the whole run.
 namespace QM.Props.C16
 open QM QM.Datagrams
 
-/-- accounting: after any run both byte counters equal the payload bytes actually queued -/
+/-- accounting: after any run `outgoing_total` equals the payload bytes queued for sending and `recv_buffered`
+    equals what the buffered incoming datagrams are charged (`recv_cost`: the length, an empty datagram one byte) -/
 theorem totals_eq_sums (ops : List Op) (hw : ∀ op ∈ ops, op.WF) :
     (exec init ops).outgoingTotal = sumLen (exec init ops).outgoing
-    ∧ (exec init ops).recvBuffered = sumLen (exec init ops).incoming :=
+    ∧ (exec init ops).recvBuffered = sumCost (exec init ops).incoming :=
   ⟨(exec_inv ops init init_inv hw).out, (exec_inv ops init init_inv hw).inc⟩
+
+/-- the charge of a datagram: its length, but never less than one byte -/
+theorem recv_cost_spec (d : Bytes) : recvCost d = (if d.length = 0 then 1 else d.length) ∧ 1 ≤ recvCost d :=
+  ⟨recvCost_eq d, recvCost_pos d⟩
 
 /-- no operation of any run panics (checked arithmetic, varint unwrap) or spins (eviction loop) -/
 theorem no_panic_no_hang (ops : List Op) (hw : ∀ op ∈ ops, op.WF) :
@@ -67,26 +72,81 @@ theorem out_total_le_fixed_buffer (b : Nat) (ops : List Op)
     (exec init ops).outgoingTotal ≤ b :=
   total_le_fixed b ops init init_inv (Nat.zero_le _) hw
 
-/-- `received`: unexpected / oversized frames are rejected without effect; otherwise the datagram is appended
-    intact after evicting a minimal prefix (the OLDEST datagrams) and `recv_buffered` = buffered bytes ≤ window -/
+/-- `received`: unexpected / oversized frames are rejected without effect; a datagram charged more than the whole
+    buffer — only an empty one offered to a zero-sized buffer — is dropped (no error, nothing buffered); otherwise
+    the datagram is appended intact after evicting a minimal prefix (the OLDEST datagrams) and `recv_buffered` =
+    charge of what is buffered ≤ window, WITHOUT any condition on the window -/
 theorem received_table (ops : List Op) (hw : ∀ op ∈ ops, op.WF) (d : Bytes) (window : Option Nat) :
     let s := exec init ops
     (window = none ∧ received s d window = (s, .rcvErr .unexpected))
     ∨ (∃ w, window = some w ∧ w < d.length ∧ received s d window = (s, .rcvErr .oversized))
-    ∨ (∃ w k, window = some w ∧ d.length ≤ w
+    ∨ (∃ w, window = some w ∧ d.length ≤ w ∧ w < recvCost d ∧ received s d window = (s, .rcvOk false))
+    ∨ (∃ w k, window = some w ∧ recvCost d ≤ w
         ∧ received s d window =
-            ({ s with incoming := s.incoming.drop k ++ [d], recvBuffered := sumLen (s.incoming.drop k) + d.length },
+            ({ s with incoming := s.incoming.drop k ++ [d], recvBuffered := sumCost (s.incoming.drop k) + recvCost d },
              .rcvOk (decide (s.recvBuffered = 0)))
-        ∧ sumLen (s.incoming.drop k) + d.length ≤ w
-        ∧ ∀ j, j < k → w < sumLen (s.incoming.drop j) + d.length) :=
+        ∧ sumCost (s.incoming.drop k) + recvCost d ≤ w
+        ∧ ∀ j, j < k → w < sumCost (s.incoming.drop j) + recvCost d) :=
   received_char _ (exec_inv ops init init_inv hw).inc d window
+
+/-- the third case of `received_table` is exactly: empty datagram, zero-sized buffer -/
+theorem dropped_unbuffered_iff (d : Bytes) (w : Nat) (h : d.length ≤ w) : w < recvCost d ↔ (w = 0 ∧ d = []) :=
+  cost_exceeds_window_iff d w h
+
+/-- `recv_buffered` never exceeds the window of a `received` call, whatever the window (also 0) and whatever
+    windows earlier calls used: every call leaves `recv_buffered ≤ window` or leaves it unchanged (rejected /
+    dropped datagram) -/
+theorem received_keeps_buffered_le_window (ops : List Op) (hw : ∀ op ∈ ops, op.WF) (d : Bytes) (w : Nat) :
+    let r := received (exec init ops) d (some w)
+    r.1.recvBuffered ≤ w ∨ r.1 = exec init ops := by
+  rcases received_char _ (exec_inv ops init init_inv hw).inc d (some w) with
+    ⟨hn, _⟩ | ⟨w', _, _, h⟩ | ⟨w', _, _, _, h⟩ | ⟨w', k, hw', _, h, hb, _⟩
+  · cases hn
+  · right; rw [h]
+  · right; rw [h]
+  · cases hw'; left; rw [h]; exact hb
+
+/-- the NUMBER of datagrams buffered for the application (and their payload bytes, and `recv_buffered`) is bounded
+    by the configured `datagram_receive_buffer_size` in every reachable state: a peer cannot make the queue grow
+    without bound by sending empty DATAGRAM frames (audit SD-9).  `received` is called with the connection's one
+    window `w`; no side condition on `w`. -/
+theorem buffered_datagram_count_le_window (w : Nat) (ops : List Op)
+    (hw : ∀ op ∈ ops, op.WF ∧ ∀ d w', op = .received d (some w') → w' = w) :
+    (exec init ops).incoming.length ≤ w ∧ sumLen (exec init ops).incoming ≤ w ∧ (exec init ops).recvBuffered ≤ w :=
+  ⟨(count_le_fixed w ops init init_inv (Nat.zero_le _) hw).1, (count_le_fixed w ops init init_inv (Nat.zero_le _) hw).2,
+   buffered_le_fixed w ops init init_inv (Nat.zero_le _) hw⟩
+
+/-- the same bound per call, whatever windows earlier calls used: after `received` BUFFERED a datagram with window
+    `w` at most `w` datagrams are buffered -/
+theorem received_leaves_count_le_window (ops : List Op) (hw : ∀ op ∈ ops, op.WF) (d : Bytes) (w : Nat)
+    (h : (received (exec init ops) d (some w)).1 ≠ exec init ops) :
+    (received (exec init ops) d (some w)).1.incoming.length ≤ w := by
+  have hi := exec_inv ops init init_inv hw
+  have hs := (step_inv _ hi (.received d (some w)) trivial).1
+  rcases received_keeps_buffered_le_window ops hw d w with hb | he
+  · have h1 := length_le_sumCost (received (exec init ops) d (some w)).1.incoming
+    have h2 : (received (exec init ops) d (some w)).1.recvBuffered
+        = sumCost (received (exec init ops) d (some w)).1.incoming := hs.inc
+    omega
+  · exact absurd he h
+
+/-- `was_empty` (the `DatagramReceived` wake-up) is reported exactly when no datagram was buffered -/
+theorem was_empty_iff_queue_empty (ops : List Op) (hw : ∀ op ∈ ops, op.WF) :
+    (exec init ops).recvBuffered = 0 ↔ (exec init ops).incoming = [] := by
+  rw [(exec_inv ops init init_inv hw).inc]; exact sumCost_eq_zero_iff _
+
+/-- the eviction loop of `received` terminates from ANY state (also one with corrupted accounting): it leaves
+    when `recv()` finds the queue empty -/
+theorem eviction_loop_terminates (s : State) (cost w : Nat) :
+    (evict cost w (s.incoming.length + 1) s).2 ≠ .hang :=
+  evict_never_hangs cost w _ s (Nat.lt_succ_self _)
 
 /-- `recv` hands out the oldest buffered datagram, unchanged, and removes it -/
 theorem recv_returns_head (ops : List Op) (hw : ∀ op ∈ ops, op.WF) :
     let s := exec init ops
     (s.incoming = [] ∧ recv s = (s, .recvNone))
     ∨ (∃ x rest, s.incoming = x :: rest
-        ∧ recv s = ({ s with incoming := rest, recvBuffered := sumLen rest }, .recvSome x)) :=
+        ∧ recv s = ({ s with incoming := rest, recvBuffered := sumCost rest }, .recvSome x)) :=
   recv_char _ (exec_inv ops init init_inv hw).inc
 
 /-- FIFO, intact, at most once: over any run, the datagrams returned by `recv` followed by those still buffered
@@ -224,6 +284,18 @@ def demoRecv : List Op :=
 example : accepted (trace init demoRecv) = [b 2, b 3, b 2] ∧ delivered (trace init demoRecv) = [b 3, b 2]
     ∧ (exec init demoRecv).incoming = [] := by decide
 example : (received (exec init demoRecv) (b 7) (some 6)).2 = .rcvErr .oversized := by decide
+
+/-- a flood of empty DATAGRAM frames into a 2-byte receive buffer (corpus/dgram/zero-length-flood.ops): two stay -/
+def demoFlood : List Op := List.replicate 5 (.received [] (some 2))
+
+example : ∀ op ∈ demoFlood, op.WF ∧ ∀ d w', op = .received d (some w') → w' = 2 := by
+  intro op h
+  simp only [demoFlood, List.mem_replicate] at h
+  rcases h with ⟨_, rfl⟩
+  exact ⟨trivial, fun d w' h => by cases h; rfl⟩
+example : (exec init demoFlood).incoming = [[], []] ∧ (exec init demoFlood).recvBuffered = 2 := by decide
+example : (exec init [.received [] (some 0), .received [] (some 0)]).incoming = []
+    ∧ (received init [] (some 0)).2 = .rcvOk false := by decide
 example : (write (exec init demoOps) [0xee] 8).2 = .wrote true [0xee, 0x31, 5, 7, 7, 7, 7, 7]
     ∧ (write (exec init demoOps) [0xee] 7).2 = .wrote false [0xee] := by decide
 example : (writeLoop (exec init demoOps) [] 12).2 = .loop 1 [0x31, 5, 7, 7, 7, 7, 7] true := by decide
